@@ -1000,6 +1000,12 @@ func (c *Conn) handleData(arg string) {
 	r.limited = false
 	io.Copy(ioutil.Discard, r) // Make sure all the data has been consumed
 	c.writeResponse(code, enhancedCode, msg)
+	if _, err := r.Read(make([]byte, 1)); err != io.EOF {
+		// The message could not be read up to its end marker (read timeout,
+		// connection error). Whatever arrives later would be taken for
+		// commands, so the connection cannot be used any further.
+		c.Close()
+	}
 }
 
 func (c *Conn) handleBdat(arg string) {
@@ -1139,6 +1145,12 @@ func (c *Conn) handleBdat(arg string) {
 		}
 
 		if err == errPanic {
+			c.Close()
+		}
+		if lr, ok := chunk.(*io.LimitedReader); ok && lr.N > 0 {
+			// The rest of the chunk could not be skipped (read timeout,
+			// connection error). Whatever arrives later would be taken for
+			// commands, so the connection cannot be used any further.
 			c.Close()
 		}
 
@@ -1308,6 +1320,12 @@ func (c *Conn) handleDataLMTP() {
 	// If done gets false, the panic occured in LMTPData and the connection
 	// should be closed.
 	if !<-done {
+		c.Close()
+	}
+
+	// Likewise if the message could not be read up to its end marker: what
+	// arrives later would be taken for commands.
+	if _, err := r.Read(make([]byte, 1)); err != io.EOF {
 		c.Close()
 	}
 }
